@@ -29,14 +29,18 @@ LEVEL_TEXT = ("Lean 4 theorems over a transliteration of dask_expr/_repartition.
               "lost for single-label frames with force - found through the certificate). divisions_order_needs_sorted_partitions: "
               "without index-ordered partitions the order is NOT kept (witness; known finding). layerOK/layer_sound "
               "(divisions_rows_order_truthful_partial): a decidable certificate on a layer that implies rows/order/truthfulness "
-              "for every frame - evaluated on every layer the REAL _layer() builds. RepartitionToFewer: tofewer_rows, "
-              "tofewer_contiguous (under the boundary hypothesis 'starts at 0, non-decreasing, ends <= old' on the float "
-              "expression int(i*(old/new)), checked exhaustively against an exact double model); RepartitionToMore: nsplits_sum, "
-              "tomore_rows, tomore_npartitions (same kind of hypothesis on split_evenly's positions); lower_npartitions (exactly n "
+              "for every frame - evaluated on every layer the REAL _layer() builds. RepartitionToFewer: tofewer_rows_ieee (rows, order, "
+              "exactly n partitions with NO float hypothesis: int(i*(old/new)) in an exact fixed-point model of IEEE doubles - unit "
+              "2^-1074, round-to-nearest-even to 53 significant bits - is monotone, starts at 0 and ends <= old after two "
+              "roundings, for fewer than 2^50 partitions: Lemmas/RepartFloat), tofewer_rows / tofewer_contiguous (any boundaries "
+              "with BoundsOK); RepartitionToMore: nsplits_sum, tomore_rows_ieee (np.linspace(0,len,k+1).astype(int) is "
+              "non-decreasing and <= len in the same double model: splitPositions_mono; k <= 2^52, len <= 2^53), tomore_rows, "
+              "tomore_npartitions; lower_npartitions (exactly n "
               "partitions in every branch of Repartition._lower); RepartitionSize: repartition_size_rows (any split counts from "
               "1 + mem//size and any chunk lengths iter_chunks yields: rows, order, one partition per chunk), iter_chunks_lengths, "
-              "sizeNsplits_pos; from_pandas_rows; divisions_npartitions. VALIDATED only: monotonicity of the two float "
-              "expressions (hypotheses BoundsOK / PosOK), pandas memory_usage (an input), boundary_slice = key-range filter.")
+              "sizeNsplits_pos; from_pandas_rows; divisions_npartitions. VALIDATED only: that the fixed-point double model IS CPython / "
+              "NumPy arithmetic (diffed exhaustively for old,new <= 120 and len < 70 x k < 40 on every run, incl. quotients below 1), "
+              "pandas memory_usage (an input), boundary_slice = key-range filter.")
 LEVEL_NOTE = ("Trusted: Lean kernel + standard axioms; the exact double model (round-to-nearest-even division and "
               "multiplication, truncation) is diffed against CPython/NumPy on every run; pandas label slicing inside "
               "boundary_slice is taken as a filter on the index (diffed, sorted and unsorted index); memory_usage of "
@@ -47,8 +51,8 @@ ASSUMPTIONS = ["index values are compared only through <, <=, == (non-negative i
                "boundary_slice(df, lo, hi, right_boundary) = rows with lo <= key and (key < hi or right_boundary and key == hi), order kept",
                "partitions of a frame with known divisions are in index order (true for from_pandas / set_index / sorted sources; "
                "otherwise repartition(divisions) regroups rows by key range: known finding)",
-               "int(i*(old/new)) and np.linspace(0,len,k+1).astype(int) are non-decreasing, start at 0 and end <= old/len "
-               "(checked exhaustively for old,new <= 120 quick / 300 thorough against the exact double model and the hypothesis)"]
+               "CPython float division/multiplication and NumPy linspace round to nearest even (IEEE-754 binary64): the model's "
+               "round53 on multiples of 2^-1074 (checked exhaustively for old,new <= 120 quick / 300 thorough and len x k)"]
 TRUSTED = ["Lean 4 kernel, axioms propext / Classical.choice / Quot.sound", "harness/props/c44.py differential tie (function level: "
            "_compute_partition_boundaries, split_evenly, _nsplits, Repartition._lower, RepartitionDivisions._layer key by key, "
            "boundary_slice, iter_chunks, RepartitionSize._nsplits/_partition_boundaries; API level)", "NumPy / pandas as oracles"]
